@@ -1,5 +1,6 @@
 (* Proofs about Model/Process.v (property C12). *)
 From UV Require Import Lib.Base Model.Process.
+From Coq Require Import Permutation.
 
 (* ------------------------------------------------------------------ *)
 (* A. descriptor tables                                                 *)
@@ -523,13 +524,23 @@ Definition macros_ok (s : Z) : bool :=
   (WTERMSIG s =? s mod 128) &&
   (fst (decode s) =? fst (decode_spec_of s)) && (snd (decode s) =? snd (decode_spec_of s)).
 
-Definition words16 : list Z := map Z.of_nat (seq 0 (256 * 256)).
+Fixpoint zrange (n : nat) (start : Z) : list Z :=
+  match n with
+  | O => []
+  | S k => start :: zrange k (start + 1)
+  end.
+
+Lemma zrange_all n : forall start s, start <= s < start + Z.of_nat n -> In s (zrange n start).
+Proof.
+  induction n as [|n IH]; intros start s H; [lia|].
+  cbn [zrange]. destruct (Z.eq_dec s start) as [->|Hne]; [left; auto|].
+  right. apply IH. lia.
+Qed.
+
+Definition words16 : list Z := zrange (256 * 256) 0.
 
 Lemma words16_all s : 0 <= s < 65536 -> In s words16.
-Proof.
-  intros H. unfold words16. apply in_map_iff. exists (Z.to_nat s). split; [lia|].
-  apply in_seq. lia.
-Qed.
+Proof. intros H. apply zrange_all. lia. Qed.
 
 Lemma macros_sweep : forallb macros_ok words16 = true.
 Proof. vm_compute. reflexivity. Qed.
@@ -564,8 +575,8 @@ Qed.
 Lemma decode_exit c : 0 <= c < 256 -> decode (256 * c) = (c, 0).
 Proof.
   intros H. rewrite decode_spec by lia. unfold decode_spec_of.
-  replace ((256 * c) mod 128) with 0 by lia. simpl.
-  f_equal. lia.
+  replace ((256 * c) mod 128) with 0 by lia. rewrite Z.eqb_refl.
+  f_equal. rewrite Z.mul_comm, Z.div_mul by lia. apply Z.mod_small. lia.
 Qed.
 
 Lemma decode_signal g core : 1 <= g <= 126 -> 0 <= core <= 1 ->
@@ -621,7 +632,7 @@ Definition pend_key (x : proc * Z) : nat * Z * bool := (p_h (fst x), snd x, p_cb
 Lemma collect_spec : forall q o keep pend ev o' ab,
   collect q o = (keep, pend, ev, o', ab) ->
   reaps ev = map pend_key pend /\ exits ev = [] /\
-  Permutation.Permutation q (map fst pend ++ keep).
+  Permutation q (map fst pend ++ keep).
 Proof.
   induction q as [|p rest IH]; intros o keep pend ev o' ab H; cbn [collect] in H.
   - inversion H; subst. simpl. auto.
@@ -630,13 +641,13 @@ Proof.
     + destruct a.
       * destruct (collect rest o1) as [[[[k1 p1] e1] o2] ab1] eqn:E.
         inversion H; subst. destruct (IH _ _ _ _ _ _ E) as (A & B & C).
-        simpl. repeat split; auto. apply Permutation.Permutation_cons_app. auto.
+        simpl. repeat split; auto. apply Permutation_cons_app. auto.
       * destruct (collect rest o1) as [[[[k1 p1] e1] o2] ab1] eqn:E.
         inversion H; subst. destruct (IH _ _ _ _ _ _ E) as (A & B & C).
-        simpl. repeat split; auto. apply Permutation.Permutation_cons_app. auto.
+        simpl. repeat split; auto. apply Permutation_cons_app. auto.
       * destruct (collect rest o1) as [[[[k1 p1] e1] o2] ab1] eqn:E.
         inversion H; subst. destruct (IH _ _ _ _ _ _ E) as (A & B & C).
-        simpl. repeat split; auto. apply Permutation.Permutation_cons_app. auto.
+        simpl. repeat split; auto. apply Permutation_cons_app. auto.
       * destruct (collect rest o1) as [[[[k1 p1] e1] o2] ab1] eqn:E.
         inversion H; subst. destruct (IH _ _ _ _ _ _ E) as (A & B & C).
         simpl. repeat split; auto. f_equal. auto.
@@ -750,35 +761,279 @@ Qed.
 Definition fresh_inv (q : list proc) (B : list nat) : Prop :=
   NoDup (map p_h q) /\ NoDup B /\ forall h, In h (map p_h q) -> ~ In h B.
 
+Definition active_handle (o : op) : list nat :=
+  match o with
+  | OSpawn h sp wo => if r_active (fst (uv_spawn sp wo)) then [h] else []
+  | _ => []
+  end.
+Definition active_handles (ops : list op) : list nat := flat_map active_handle ops.
+
+Lemma active_sub ops x : In x (active_handles ops) -> In x (spawn_handles ops).
+Proof.
+  unfold active_handles, spawn_handles. rewrite !in_flat_map.
+  intros (o & O1 & O2). exists o. split; auto.
+  destruct o as [h sp wo|ans|h]; cbn [active_handle spawn_handle] in *; auto.
+  destruct (r_active (fst (uv_spawn sp wo))); auto. destruct O2.
+Qed.
+
+Lemma fresh_inv_weaken q a B : fresh_inv q (a ++ B) -> fresh_inv q B.
+Proof.
+  intros (I1 & I2 & I3). apply NoDup_app_inv in I2 as (_ & I2 & _).
+  split; auto. split; auto. intros h Hh X. apply (I3 h Hh). apply in_or_app. auto.
+Qed.
+
+Lemma reaped_handles_collect ev pend :
+  reaps ev = map pend_key pend -> reaped_handles ev = map p_h (map fst pend).
+Proof.
+  intros H. unfold reaped_handles. rewrite H, !map_map. reflexivity.
+Qed.
+
+Lemma step_fresh s o s1 e1 B :
+  fresh_inv (l_q s) (spawn_handle o ++ B) -> step s o = (s1, e1) ->
+  fresh_inv (l_q s1) B /\ NoDup (reaped_handles e1) /\
+  (forall h, In h (reaped_handles e1) -> In h (map p_h (l_q s)) /\ ~ In h (map p_h (l_q s1))) /\
+  (forall h, In h (map p_h (l_q s1)) -> In h (map p_h (l_q s)) \/ In h (active_handle o)).
+Proof.
+  intros HI H. pose proof (fresh_inv_weaken _ _ _ HI) as HW.
+  unfold step in H. destruct (l_abort s) eqn:Ea.
+  { inversion H; subst. split; auto. split; [constructor|]. split; [intros h []|auto]. }
+  destruct o as [h sp wo|ans|h].
+  - cbn [active_handle]. destruct (uv_spawn sp wo) as [res wo1]. inversion H; subst. clear H.
+    cbn [fst].
+    split; [|split; [constructor|split; [intros x []|]]].
+    + destruct (r_active res); auto. cbn [l_q].
+      destruct HI as (I1 & I2 & I3). destruct HW as (_ & W2 & W3).
+      cbn [spawn_handle app] in I2, I3. inversion I2; subst.
+      split; [|split; auto].
+      * rewrite map_app. apply NoDup_app_intro; auto.
+        -- simpl. constructor; [tauto|constructor].
+        -- intros x Hx [E|[]]. subst x. apply (I3 h Hx). left. auto.
+      * intros x Hx. rewrite map_app in Hx. apply in_app_or in Hx as [Hx|[<-|[]]]; auto.
+    + cbn [l_q]. intros x Hx. destruct (r_active res); auto.
+      rewrite map_app in Hx. apply in_app_or in Hx as [Hx|[<-|[]]]; auto.
+      right. left. auto.
+  - unfold wait_children in H.
+    destruct (collect (l_q s) ans) as [[[[keep pend] ev] o1] ab] eqn:E.
+    destruct (collect_spec _ _ _ _ _ _ _ E) as (A & _ & P).
+    apply (Permutation_map p_h) in P. rewrite map_app in P.
+    destruct HW as (W1 & W2 & W3).
+    pose proof (Permutation_NoDup P W1) as ND. apply NoDup_app_inv in ND as (N1 & N2 & N3).
+    assert (RH : reaped_handles e1 = map p_h (map fst pend)).
+    { destruct ab; inversion H; subst.
+      - apply reaped_handles_collect. auto.
+      - apply reaped_handles_collect. destruct (deliver_spec pend) as (C & _).
+        rewrite !reaps_app, C, A. destruct o1; simpl; rewrite !app_nil_r; auto. }
+    assert (Q1 : l_q s1 = keep) by (destruct ab; inversion H; subst; reflexivity).
+    rewrite RH, Q1.
+    split; [|split; [auto|split]].
+    + split; auto. split; auto. intros x Hx. apply W3.
+      apply (Permutation_in _ (Permutation_sym P)). apply in_or_app. auto.
+    + intros x Hx. split; [|apply N3; auto].
+      apply (Permutation_in _ (Permutation_sym P)). apply in_or_app. auto.
+    + intros x Hx. left. apply (Permutation_in _ (Permutation_sym P)). apply in_or_app. auto.
+  - inversion H; subst. clear H. cbn [l_q].
+    destruct HW as (W1 & W2 & W3).
+    assert (Sub : forall x, In x (map p_h (filter (fun p => negb (p_h p =? h)) (l_q s))) ->
+                            In x (map p_h (l_q s))).
+    { intros x Hx. apply in_map_iff in Hx as (y & Y1 & Y2). apply filter_In in Y2 as [Y2 _].
+      apply in_map_iff. eauto. }
+    split; [|split; [constructor|split; [intros x []|]]].
+    + split; [apply NoDup_map_filter; auto|]. split; auto.
+    + intros x Hx. left. auto.
+Qed.
+
 Lemma reaped_once_gen : forall ops s s' evs,
   fresh_inv (l_q s) (spawn_handles ops) ->
   run s ops = (s', evs) ->
   NoDup (reaped_handles evs) /\
-  forall h, In h (reaped_handles evs) -> In h (map p_h (l_q s)).
+  forall h, In h (reaped_handles evs) -> In h (map p_h (l_q s)) \/ In h (active_handles ops).
 Proof.
   induction ops as [|o r IH]; intros s s' evs HI H; cbn [run] in H.
   - inversion H; subst. simpl. split; [constructor|tauto].
   - destruct (step s o) as [s1 e1] eqn:E1. destruct (run s1 r) as [s2 e2] eqn:E2.
     inversion H; subst. clear H.
-    unfold reaped_handles. rewrite reaps_app, map_app.
-    destruct HI as (I1 & I2 & I3).
-    unfold step in E1. destruct (l_abort s) eqn:Ea.
-    { inversion E1; subst. rewrite run_abort in E2 by auto. inversion E2; subst.
-      simpl. split; [constructor|tauto]. }
-    destruct o as [h sp wo|ans|h].
-    + (* spawn *)
-      destruct (uv_spawn sp wo) as [res wo1]. inversion E1; subst. clear E1.
-      simpl in I2, I3. inversion I2; subst.
-      assert (Hq : ~ In h (map p_h (l_q s))) by (intros X; apply (I3 h X); left; auto).
-      simpl.
-      destruct (r_active res).
-      * destruct (IH _ _ _ ltac:(shelve) E2) as (A & B).
-        split; auto. intros x Hx. apply B in Hx. simpl in Hx.
-        rewrite map_app in Hx. apply in_app_or in Hx as [Hx|Hx]; auto.
-        simpl in Hx. destruct Hx as [<-|[]].
-        (* a handle spawned here cannot have been reaped before... it can be reaped later *)
-        shelve.
-      * destruct (IH _ _ _ ltac:(shelve) E2) as (A & B). split; auto.
-    + shelve.
-    + shelve.
-Abort.
+    change (spawn_handles (o :: r)) with (spawn_handle o ++ spawn_handles r) in *.
+    change (active_handles (o :: r)) with (active_handle o ++ active_handles r) in *.
+    destruct (step_fresh _ _ _ _ _ HI E1) as (F1 & F2 & F3 & F4).
+    destruct (IH _ _ _ F1 E2) as (G1 & G2).
+    unfold reaped_handles in *. rewrite reaps_app, map_app. split.
+    + apply NoDup_app_intro; auto.
+      intros x Hx Hy. destruct (F3 x Hx) as (X1 & X2).
+      destruct (G2 x Hy) as [Y|Y]; [auto|].
+      destruct HI as (_ & _ & I3). apply (I3 x X1). apply in_or_app. right.
+      apply active_sub. auto.
+    + intros x Hx. apply in_app_or in Hx as [Hx|Hx].
+      * left. apply F3. auto.
+      * destruct (G2 x Hx) as [Y|Y].
+        -- destruct (F4 x Y) as [Z|Z]; auto. right. apply in_or_app. auto.
+        -- right. apply in_or_app. auto.
+Qed.
+
+(* from an empty loop: nobody is reaped twice, and only spawned handles are reaped *)
+Theorem reaped_once ops s' evs :
+  NoDup (spawn_handles ops) -> run linit ops = (s', evs) ->
+  NoDup (reaped_handles evs) /\ forall h, In h (reaped_handles evs) -> In h (active_handles ops).
+Proof.
+  intros H R. destruct (reaped_once_gen ops linit s' evs) as (A & B); auto.
+  - split; [constructor|]. split; auto.
+  - split; auto. intros h Hh. destruct (B h Hh) as [[]|X]; auto.
+Qed.
+
+(* a spawn whose exec (or an earlier step) failed queues nothing *)
+Lemma failed_spawn_not_queued s h sp wo s1 e1 :
+  l_abort s = false -> step s (OSpawn h sp wo) = (s1, e1) ->
+  r_ret (fst (uv_spawn sp wo)) <> 0%Z -> l_q s1 = l_q s.
+Proof.
+  intros Ha H Hr. unfold step in H. rewrite Ha in H.
+  destruct (uv_spawn sp wo) as [res wo1] eqn:E. inversion H; subst. cbn [l_q].
+  simpl in Hr.
+  assert (r_active res = false) as ->; auto.
+  unfold uv_spawn in E.
+  destruct (init_stdio (s_stdio sp) (s_tbl sp) (s_fresh sp) 0 (s_sp_fail sp)) as [[[t1 ps] f1] err].
+  destruct err.
+  - inversion E; subst. reflexivity.
+  - destruct (spawn_child t1 (pad3 3 (map snd ps)) f1 (s_pipe_fail sp) (s_fork_fail sp) (s_exec_err sp) wo)
+      as [[[[[eno t2] c] wrote] reaped] wo2].
+    destruct (open_streams (s_stdio sp) ps 0 t2) as [t3 streams].
+    inversion E; subst. simpl in *. apply Z.eqb_neq. auto.
+Qed.
+
+Lemma ret_nonzero_inactive sp wo :
+  r_ret (fst (uv_spawn sp wo)) <> 0%Z -> r_active (fst (uv_spawn sp wo)) = false.
+Proof.
+  unfold uv_spawn.
+  destruct (init_stdio (s_stdio sp) (s_tbl sp) (s_fresh sp) 0 (s_sp_fail sp)) as [[[t1 ps] f1] err].
+  destruct err.
+  - simpl. auto.
+  - destruct (spawn_child t1 (pad3 3 (map snd ps)) f1 (s_pipe_fail sp) (s_fork_fail sp) (s_exec_err sp) wo)
+      as [[[[[eno t2] c] wrote] reaped] wo2].
+    destruct (open_streams (s_stdio sp) ps 0 t2) as [t3 streams].
+    simpl. intros H. apply Z.eqb_neq. auto.
+Qed.
+
+Lemma spawn_unique : forall ops h a b c d,
+  NoDup (spawn_handles ops) ->
+  In (OSpawn h a b) ops -> In (OSpawn h c d) ops -> OSpawn h a b = OSpawn h c d.
+Proof.
+  induction ops as [|o r IH]; intros h a b c d N H1 H2; [destruct H1|].
+  change (spawn_handles (o :: r)) with (spawn_handle o ++ spawn_handles r) in N.
+  apply NoDup_app_inv in N as (_ & N2 & N3).
+  assert (Hin : forall x y, In (OSpawn h x y) r -> In h (spawn_handles r)).
+  { intros x y Hx. unfold spawn_handles. apply in_flat_map. eexists. split; eauto. simpl. auto. }
+  destruct H1 as [->|H1], H2 as [E|H2].
+  - auto.
+  - exfalso. apply (N3 h); [simpl; auto|eauto].
+  - subst o. exfalso. apply (N3 h); [simpl; auto|eauto].
+  - eapply IH; eauto.
+Qed.
+
+Lemma exits_reaped evs h es ts :
+  (exists rest, owed (reaps evs) = exits evs ++ rest) ->
+  In (h, es, ts) (exits evs) -> In h (reaped_handles evs).
+Proof.
+  intros (rest & E) H.
+  assert (X : In (h, es, ts) (owed (reaps evs))) by (rewrite E; apply in_or_app; auto).
+  unfold owed in X. apply in_flat_map in X as ([[h' st] cb] & Y1 & Y2).
+  unfold owed1 in Y2. destruct cb; [|destruct Y2].
+  destruct Y2 as [Y2|[]]. inversion Y2; subst.
+  unfold reaped_handles. apply in_map_iff. exists (h, st, true). auto.
+Qed.
+
+(* a uv_spawn that returned an error never leads to an exit callback *)
+Theorem failed_spawn_no_exit ops s' evs h sp wo :
+  NoDup (spawn_handles ops) -> run linit ops = (s', evs) ->
+  In (OSpawn h sp wo) ops -> r_ret (fst (uv_spawn sp wo)) <> 0%Z ->
+  forall es ts, ~ In (h, es, ts) (exits evs).
+Proof.
+  intros N R Hin Hr es ts X.
+  destruct (exit_once_true_status _ _ _ _ R) as (_ & P).
+  apply (exits_reaped _ _ _ _ P) in X.
+  destruct (reaped_once _ _ _ N R) as (_ & B). apply B in X.
+  unfold active_handles in X. apply in_flat_map in X as (o & O1 & O2).
+  destruct o as [h' sp' wo'|ans|h']; cbn [active_handle] in O2; try destruct O2.
+  destruct (r_active (fst (uv_spawn sp' wo'))) eqn:Ea; [|destruct O2].
+  destruct O2 as [->|[]].
+  pose proof (spawn_unique _ _ _ _ _ _ N Hin O1) as E. inversion E; subst.
+  rewrite ret_nonzero_inactive in Ea by auto. discriminate.
+Qed.
+
+(* a witness at the level of uv_spawn and the loop: exec fails (ENOENT), the
+   spawn reports success, the handle is active and the callback later says
+   "exited with 127" *)
+Definition clobber_spec : spec :=
+  mkSpec [Some (mkE 1 false); Some (mkE 2 false); Some (mkE 3 false)]
+         [SFd 0; SFd 1; SFd 2; SFd 0; SFd 1; SFd 2]
+         true 7 10 None false false (Some 2%Z).
+
+Lemma clobber_run :
+  r_ret (fst (uv_spawn clobber_spec [])) = 0%Z /\
+  r_active (fst (uv_spawn clobber_spec [])) = true /\
+  r_wrote (fst (uv_spawn clobber_spec [])) = Some (Some 2, (-2)%Z) /\
+  exits (snd (run linit [OSpawn 0 clobber_spec []; OScan [WPid 32512%Z]])) = [(0, 127%Z, 0%Z)].
+Proof. vm_compute. repeat split; reflexivity. Qed.
+
+(* the parent's table is unchanged by a uv_spawn without UV_CREATE_PIPE slots,
+   whatever happens (every descriptor made on the way is closed again) *)
+Definition no_pipes (cs : list stdio) : Prop := forall c, In c cs -> c <> SPipe.
+
+Lemma init_stdio_no_pipes : forall cs t fresh nsp spf,
+  no_pipes cs ->
+  exists ps e, init_stdio cs t fresh nsp spf = (t, ps, fresh, e) /\
+               error_closes cs ps t = t /\
+               (forall i, open_streams cs ps i t = (t, [])) /\
+               (forall t' i, open_streams cs ps i t' = (t', [])).
+Proof.
+  induction cs as [|c r IH]; intros t fresh nsp spf Hn.
+  - exists [], None. simpl. auto.
+  - assert (Hr : no_pipes r) by (intros x Hx; apply Hn; right; auto).
+    destruct (IH t fresh nsp spf Hr) as (ps & e & E & C & O & O').
+    destruct c.
+    + cbn [init_stdio]. rewrite E. eexists _, _. split; [reflexivity|].
+      simpl. auto.
+    + exfalso. apply (Hn SPipe); [left; auto|auto].
+    + cbn [init_stdio]. rewrite E. eexists _, _. split; [reflexivity|].
+      simpl. auto.
+    + exists [], (Some UV_EINVAL). simpl. auto.
+Qed.
+
+Definition sc_tbl (x : Z * tbl * option cres * option (option nat * Z) *
+                       option (option wans) * list wans) : tbl :=
+  let '(_, t, _, _, _, _) := x in t.
+
+Lemma spawn_child_restores t us fresh pf ff ee wo d :
+  get (sc_tbl (spawn_child t us fresh pf ff ee wo)) d = get t d.
+Proof.
+  unfold spawn_child. destruct pf; [reflexivity|].
+  destruct (alloc t 0 fresh true) as [t1 rfd] eqn:A1.
+  destruct (alloc t1 0 (S fresh) true) as [t2 wfd] eqn:A2.
+  apply alloc_spec in A1 as (_ & B1 & _ & D1 & _).
+  apply alloc_spec in A2 as (_ & B2 & _ & D2 & _).
+  assert (X : get (close (close t2 wfd) rfd) d = get t d).
+  { rewrite !get_close.
+    destruct (Nat.eqb_spec rfd d) as [<-|N1]; [auto|].
+    destruct (Nat.eqb_spec wfd d) as [<-|N2].
+    - rewrite <- B2. destruct (Nat.eq_dec wfd rfd) as [->|N3]; [congruence|]. apply D1. auto.
+    - rewrite D2 by auto. apply D1. auto. }
+  destruct ff; [exact X|].
+  destruct (child_init us ee t2) as [tc|tc e].
+  - exact X.
+  - destruct (get tc wfd) as [w|]; [|exact X].
+    destruct (e_file w =? S fresh)%nat; [|exact X].
+    destruct (wait_retry wo). exact X.
+Qed.
+
+Theorem spawn_no_leak sp wo :
+  no_pipes (s_stdio sp) ->
+  forall d, get (r_ptbl (fst (uv_spawn sp wo))) d = get (s_tbl sp) d.
+Proof.
+  intros Hn d. unfold uv_spawn.
+  destruct (init_stdio_no_pipes (s_stdio sp) (s_tbl sp) (s_fresh sp) 0 (s_sp_fail sp) Hn)
+    as (ps & e & E & C & O & O').
+  rewrite E. destruct e.
+  - simpl. rewrite C. reflexivity.
+  - pose proof (spawn_child_restores (s_tbl sp) (pad3 3 (map snd ps)) (s_fresh sp)
+                  (s_pipe_fail sp) (s_fork_fail sp) (s_exec_err sp) wo d) as R.
+    destruct (spawn_child (s_tbl sp) (pad3 3 (map snd ps)) (s_fresh sp) (s_pipe_fail sp)
+                (s_fork_fail sp) (s_exec_err sp) wo) as [[[[[eno t2] c] wrote] reaped] wo2].
+    rewrite O'. simpl in *. exact R.
+Qed.
